@@ -333,11 +333,14 @@ def check_fx(J, b, spec):
     J.equal_series('fx_net_positions_not_zero_in_numeraire', 'sum NET_c * XR_c = 0', valued,
                    lambda k: Fraction(0), k_from=1, ctx={'currencies': curs})
     has_gold = any(z['gov']['form'] in ('gold', 'gold_cb') for z in spec['zones'])
-    if not has_gold:
+    if not has_gold and not spec.get('row'):
         J.equal_series('numeraire_position_not_zero_with_paired_flows', 'NET_NUMERAIRE = 0',
                        lambda k: J.v(nets['NUMERAIRE'], k), lambda k: Fraction(0), k_from=1)
-    # each real currency: NET = outflows sent - inflows received (valued in that currency)
-    for z in spec['zones']:
+    # each real currency (and the numeraire when a sector lives in it): NET = outflows sent - inflows received
+    zlist = list(spec['zones'])
+    if spec.get('row') and not has_gold:
+        zlist.append({'cur': 'NUMERAIRE', 'gov': {'form': None}})
+    for z in zlist:
         cur = z['cur']
         sent, recv = [], []
         for f in b.flows:
@@ -358,7 +361,7 @@ def check_fx(J, b, spec):
             if dc == cur:
                 recv.append((name, sc))
         gold = []
-        gh = gold_holder(b, z)
+        gh = gold_holder(b, z) if z['gov']['form'] else None
         if gh is not None:
             gold.append(vn(b, gh[0], gh[1], 'GOLDPURCHASES'))
 
